@@ -78,6 +78,7 @@ where
 {
     // model
     let mut m = BModel::new(&h.ty, &h.name);
+    m.typed = typed;
     let mut expects: Vec<(usize, SetterExpect)> = Vec::new();
     for (i, c) in h.calls.iter().enumerate() {
         let e = m.apply(c);
